@@ -82,9 +82,70 @@ def universal_programs(rng, n):
     return out
 
 
+def shipped_part_files(res, vh, exe, devs, rng):
+    """the part-definition files the assembler ships (includes/*def.inc: .device, hundreds of .equ, #pragma lines naming
+    memories and unsupported instructions): a program that starts with one of them is gated exactly as by its .device line -
+    everything the part has assembles to the device-less code, each form it lacks fails the build"""
+    import os
+    import re
+    from . import common as C, fsrun
+    inc = os.path.join(C.REPO, "includes")
+    flags_of = {d[0]: set(d[5]) for d in devs}
+    base = fsrun.work_root()
+    cases, meta = [], []
+    for fn in sorted(os.listdir(inc)):
+        if not fn.endswith("def.inc"):
+            continue
+        text = open(os.path.join(inc, fn), errors="replace").read()
+        m = re.search(r"^\s*\.device\s+(\w+)", text, re.M | re.I)
+        if not m or m.group(1) not in flags_of:
+            continue
+        opts = flags_of[m.group(1)]
+        allowed = [f for f, fl in FORMS if not (fl & opts) and not f.split()[0] in ("lds", "sts")]
+        lacking = [f for f, fl in FORMS if fl & opts]
+        rng.shuffle(lacking)
+        progs = [("all-it-has", "\n".join(" " + f for f in allowed) + "\n", None)]
+        progs += [("lacks", " nop\n %s\n nop\n" % f, f) for f in lacking[:3 if res.tier == "quick" else 100]]
+        for kind, body, form in progs:
+            r = "%s/p%d" % (base, len(cases))
+            cases.append(dict(cwd=r, main="main.asm", paths=[], dirs=[r], files={r + "/main.asm": '.include "%s"\n%s' % (fn, body), r + "/" + fn: text}, missing=None))
+            meta.append((fn, m.group(1), kind, body, form))
+    try:
+        rows = fsrun.run_cases(vh, exe, cases)
+    finally:
+        fsrun.cleanup()
+    plain = {b: progrun.parse_obs(o) for (b, o, _) in progrun.run_texts(vh, exe, list(dict.fromkeys(x[3] for x in meta if x[2] == "all-it-has")))}
+    mism = [(c, a, b) for c, a, b in rows if not P.agree(a, b)]
+    res.oblige("correspondence(extracted model): Files.build_file = builder::build_file on %d programs that start with a shipped part-definition file" % len(rows),
+               not mism, "%s: impl=%s model=%s" % (list(mism[0][0]["files"])[0][-30:], mism[0][1][:80], mism[0][2][:80]) if mism else "")
+    for (fn, dev, kind, body, form), (_, a, _) in zip(meta, rows):
+        o = progrun.parse_obs(a.replace(" NAMED", "").replace(" UNNAMED", ""))
+        res.count(("part-file", fn, kind, form), nontrivial=True)
+        src = '.include "%s"   (the shipped file, .device %s)\n%s' % (fn, dev, body)
+        if kind == "lacks" and o["kind"] != "ERR":
+            P.fail(res, "builder::build_file", src, "a failed build: %s lacks `%s`" % (dev, form), a[:60], "part-file-gate-open")
+        if kind == "all-it-has":
+            w = plain[body]
+            # files that the grammar cannot read at all are outside this check (the same outcome with any program behind them)
+            if o["kind"] == "ERR" and o.get("line") is not None and o["line"] <= text_lines(cases[meta.index((fn, dev, kind, body, form))]["files"], fn):
+                continue
+            if w["kind"] == "OK" and (o["kind"] != "OK" or o["code"] != w["code"]):
+                P.fail(res, "builder::build_file", src, "the code of the same instructions without a device: " + w["code"][:40], a[:60], "part-file-gate-closed")
+    res.extra.setdefault("distribution", {})["programs_behind_part_files"] = len(cases)
+
+
+def text_lines(files, fn):
+    for p, t in files.items():
+        if p.endswith("/" + fn):
+            return t.count("\n") + 1
+    return 0
+
+
 def run(res):
     vh, exe = P.base(res, PROP)
     devs = gen.read_devices(vh)
+    from . import devspec
+    devspec.check(res, devs, ("feature flags",))
     texts, meta, late_meta = [], [], []
     for text, _ in FORMS:
         texts.append(text + "\n")
@@ -136,6 +197,14 @@ def run(res):
         t = ".device %s\n%s\n" % (name, "\n".join(lines))
         texts.append(t)
         seq_meta.append((t, name, opts, forms))
+    shipped_part_files(res, vh, exe, devs, rng)
+    # instructions a #pragma names as unsupported are comments for this assembler: the table decides
+    for name, _, _, _, _, opts in devs[1:]:
+        for text, flags in FORMS[::7]:
+            mn = text.split()[0]
+            t = ".device %s\n#pragma AVRPART CORE INSTRUCTIONS_NOT_SUPPORTED %s\n.pragma AVRPART CORE INSTRUCTIONS_NOT_SUPPORTED break movw mul\n%s\n" % (name, mn, text)
+            texts.append(t)
+            meta.append((t, name, text, flags, set(opts)))
     uni = universal_programs(rng, 30 if res.tier == "quick" else 3000)
     uni_meta = []
     for u in uni:
